@@ -216,6 +216,43 @@ unexpected_cfgs = { level = "allow" }
 """
 
 
+def extract_fn(text, name):
+    """Source text of `fn name(...) {...}` (with its attributes/visibility) by brace matching."""
+    m = re.search(r"(?m)^[ \t]*(?:pub(?:\([a-z]+\))? )?fn %s\b" % re.escape(name), text)
+    if not m:
+        raise GenError("function %s not found for extraction" % name)
+    i = text.index("{", m.end())
+    # skip to the body's opening brace: the first '{' after the closing ')' of the parameter list / return type
+    depth, j = 0, m.end()
+    while True:
+        c = text[j]
+        if c == "(":
+            depth += 1
+        elif c == ")":
+            depth -= 1
+        elif c == "{" and depth == 0:
+            break
+        j += 1
+    depth, k = 0, j
+    while True:
+        c = text[k]
+        if c == "{":
+            depth += 1
+        elif c == "}":
+            depth -= 1
+            if depth == 0:
+                break
+        k += 1
+    return text[m.start():k + 1]
+
+
+# (repo file, function name) -> generated file inside build/liftk/src with the impl wrapper
+LIFT_EXTRACTS = {
+    "lift/index/updater_extract.rs": ("src/index/updater.rs", "index_transaction_sats",
+                                      "// GENERATED at run time: the text of Updater::%s copied from /repo/%s\nuse super::*;\n\nimpl Updater<'_> {\n%s\n}\n\n#[cfg(test)]\nmod fifo_replay;\n"),
+}
+
+
 def gen_lift():
     """build/liftk: shim + harness files from /verif/harness/lift/src, real files
     copied from /repo's current working tree."""
@@ -236,6 +273,10 @@ def gen_lift():
         if rp in LIFT_STRIP_TESTS:
             data = strip_test_module(data)
         _write_if_changed(os.path.join(dst, "src", to), data)
+        keep.add(os.path.join(dst, "src", to))
+    for to, (rp, fname, tmpl) in LIFT_EXTRACTS.items():
+        body = extract_fn(open(os.path.join(C.REPO, rp)).read(), fname)
+        _write_if_changed(os.path.join(dst, "src", to), tmpl % (fname, rp, body))
         keep.add(os.path.join(dst, "src", to))
     for root, dirs, files in os.walk(os.path.join(dst, "src")):
         for fn in files:
